@@ -6,6 +6,13 @@ import PanqecVerif.Model.Bits
 
 namespace Panqec.BSp
 
+/-- decidable equality of results, so that concrete instances can be closed by `decide` -/
+instance instDecEqExcept {ε α} [DecidableEq ε] [DecidableEq α] : DecidableEq (Except ε α)
+  | .ok a, .ok b => if h : a = b then isTrue (by rw [h]) else isFalse (fun h' => h (by injection h'))
+  | .error a, .error b => if h : a = b then isTrue (by rw [h]) else isFalse (fun h' => h (by injection h'))
+  | .ok _, .error _ => isFalse (fun h => by injection h)
+  | .error _, .ok _ => isFalse (fun h => by injection h)
+
 /-! ### `sortUniq` -/
 
 theorem mem_insSorted (c x : Nat) (l : List Nat) : x ∈ insSorted c l ↔ x = c ∨ x ∈ l := by
@@ -184,6 +191,22 @@ theorem mem_insCols (i j : Nat) (cols : List Nat) :
     by_cases hj : j = i
     · subst hj; simp [hi]
     · simp [hj]
+
+theorem decide_mem_insCols_self (i : Nat) (cols : List Nat) :
+    decide (i ∈ insCols i cols) = !decide (i ∈ cols) := by
+  have h := mem_insCols i i cols
+  rw [if_pos rfl] at h
+  by_cases hc : i ∈ cols
+  · have : i ∉ insCols i cols := fun h' => (h.mp h') hc
+    rw [decide_eq_false this, decide_eq_true hc]; rfl
+  · have : i ∈ insCols i cols := h.mpr hc
+    rw [decide_eq_true this, decide_eq_false hc]; rfl
+
+theorem decide_mem_insCols_other (i j : Nat) (cols : List Nat) (hj : j ≠ i) :
+    decide (j ∈ insCols i cols) = decide (j ∈ cols) := by
+  have h := mem_insCols i j cols
+  rw [if_neg hj] at h
+  exact decide_eq_decide.mpr h
 
 theorem insCols_nodup (i : Nat) (cols : List Nat) (h : cols.Nodup) : (insCols i cols).Nodup := by
   unfold insCols
